@@ -6,6 +6,7 @@ import (
 	ipfslog "berty.tech/go-ipfs-log"
 	"berty.tech/go-ipfs-log/iface"
 	"berty.tech/go-ipfs-log/internal/vx"
+	"math"
 )
 
 // H_C16: a size-bounded merge keeps exactly the newest entries of the full merge.
@@ -39,6 +40,9 @@ func H_C16() {
 	full := A2.Values().Slice()
 	total := len(full)
 	n := vx.IntRange("size", 0, total+2)
+	if vx.Param("BIGN", 0) == 1 {
+		n = vx.IntRange("size", 0, math.MaxInt) // any bound at all
+	}
 	_, err := A.Join(B, n)
 	vx.Assert("C16", err == nil, "a size-bounded merge of a valid log succeeds")
 	got := A.Values().Slice()
